@@ -686,7 +686,7 @@ func init() {
 		ID: "C05", Level: "model_checking", Run: c05Run,
 		Shards: func(string) int { return 16 },
 		Rule: func(string) string {
-			return "all 256 x 256 (first octet, message type) pairs at both header offsets ([o,00,t] and [o,00,00,t]), each followed by the minimal valid body of the message the pair names (also one octet short and with one trailing unknown octet) and by {nothing, one, sixteen} zero octets, through PlainNasDecode and the family decoder; all inputs of length 0..1, nil; reuse of one message for every ordered pair of assigned types of a family through PlainNasDecode and through the family decoder, with a valid and with a truncated (rejected) first input; every variable-length element of every message filled with a complete instance of every message type (nested messages: still exactly the body named by the outer type); decode into a message whose security-header view was set beforehand (8 x 8 x 8 values of the one-octet fields x 15 inputs x 3 entry points: verdict and populated bodies must equal those of a fresh message); encode for all 256 types x {5GMM, 5GSM} x {family encoder, PlainNasEncode} x {no body, another body, own body}. Oracle: the pinned message-type table (accept iff discriminator and type are assigned and the body is valid; exactly one family and exactly the named body populated; header view = input header = body header octets; errors otherwise)."
+			return "all 256 x 256 (first octet, message type) pairs at both header offsets ([o,00,t] and [o,00,00,t]), each followed by the minimal valid body of the message the pair names (also one octet short and with one trailing unknown octet) and by {nothing, one, sixteen} zero octets, through PlainNasDecode and the family decoder; all inputs of length 0..1, nil; reuse of one message for every ordered pair of assigned types of a family through PlainNasDecode and through the family decoder, with a valid and with a truncated (rejected) first input; every variable-length element of every message filled with a complete instance of every message type (nested messages: still exactly the body named by the outer type); decode into a message whose security-header view was set beforehand (8 x 8 x 8 values of the one-octet fields x 15 inputs x 3 entry points: verdict and populated bodies must equal those of a fresh message); encode for all 256 types x {5GMM, 5GSM} x {family encoder, PlainNasEncode} x {no body, another body, own body}. Oracle: the pinned message-type table (accept iff discriminator and type are assigned and the body is valid; exactly one family and exactly the named body populated; header view = input header = body header octets; errors otherwise). Header values: every assigned type x every value of the other header octets (5GSM: 256 x 256 PDU session identity x PTI; 5GMM: 256 security-header octets) decoded through the family decoder and (5GMM: all, 5GSM: a diagonal) PlainNasDecode, and encoded through both encoders; the same with a complete 5GMM message inside the first variable-length element — a verdict that depends on element contents while the reference accepts is a violation."
 		},
 		Assumptions: []string{
 			"'a message with no body' is read as 'neither GmmMessage nor GsmMessage'; a family header with an assigned type but a nil body of that type is not asserted (the statement is ambiguous there)",
